@@ -48,14 +48,15 @@ static int run(int protocol, int auth, uint64_t seed, fault_t *f, int timeout_ms
 	printf(" pc=%d:%d:%zu ps=%d:%d:%zu", S->c.post_send_ret, S->c.post_recv_ret, S->c.post_recv_ret == 1 ? S->c.post_recv_len : 0,
 		S->s.post_send_ret, S->s.post_recv_ret, S->s.post_recv_ret == 1 ? S->s.post_recv_len : 0);
 	{
-		int np = S->c.nplan ? S->c.nplan : 2, i;
-		printf(" okc=%d oks=%d", S->c.post_accepted == np && !S->c.post_deviates, S->s.post_accepted == np && !S->s.post_deviates);
+		int np = S->c.nplan ? S->c.nplan : 2, napp = S->c.nplan ? 0 : 2, i;
+		for (i = 0; i < S->c.nplan; i++) napp += PM_IS_APP(S->c.plan[i]);
+		printf(" okc=%d oks=%d", S->c.post_accepted == napp && !S->c.post_deviates, S->s.post_accepted == napp && !S->s.post_deviates);
 		printf(" accc=%d:%d accs=%d:%d", S->c.post_accepted, S->c.post_deviates, S->s.post_accepted, S->s.post_deviates);
 		printf(" retsc="); for (i = 0; i < S->c.post_ncalls; i++) printf("%s%d", i ? "," : "", S->c.post_rets[i]); if (!S->c.post_ncalls) printf("-");
 		printf(" retss="); for (i = 0; i < S->s.post_ncalls; i++) printf("%s%d", i ? "," : "", S->s.post_rets[i]); if (!S->s.post_ncalls) printf("-");
 		printf(" seqc=%02x%02x:%02x%02x seqs=%02x%02x:%02x%02x", S->c.conn->client_seq_num[6], S->c.conn->client_seq_num[7], S->c.conn->server_seq_num[6], S->c.conn->server_seq_num[7],
 			S->s.conn->client_seq_num[6], S->s.conn->client_seq_num[7], S->s.conn->server_seq_num[6], S->s.conn->server_seq_num[7]);
-		printf(" np=%d", np);
+		printf(" np=%d napp=%d", np, napp);
 	}
 	printf(" applied=%d", S->px.fault.applied);
 	if (want_layout) {
